@@ -1,10 +1,10 @@
 (** * Model of [predict/gps/kernels.rs]: RBF and rational-quadratic kernels, scalar and matrix form.
-    The matrix form of the Rust code goes through reshape, element-wise powi, a broadcast sum of a column and a
-    row, [dot_t] (an outer product accumulated from 0), scalar-matrix arithmetic and element-wise maps; this file
-    states the net effect entry by entry in the same operation order.  The plumbing itself is modelled in
-    [Model/KernelsPlumbing.v] as the composition of the verified component models of C15 / C04 / C12 / C05 in the
-    code's call order; Proofs/C20_plumbing.v proves that composition equal to the net formulas below, and the
-    correspondence runs both. *)
+    The matrix form of the (repaired) Rust code reshapes the first argument to a column and the second to a row,
+    broadcasts their difference (entry (i, j) = x_i - y_j) and then applies, element-wise, exactly the operations of
+    the scalar form in the scalar form's order; this file states the net effect: the matrix of the SCALAR form.  The
+    plumbing itself is modelled in [Model/KernelsPlumbing.v] as the composition of the verified component models of
+    C15 / C04 / C12 in the code's call order; Proofs/C20_plumbing.v proves that composition equal to the net
+    matrix below, and the correspondence runs both. *)
 From Coq Require Import List ZArith Bool.
 From Compute Require Import Base.Ops.
 Import ListNotations.
@@ -22,19 +22,11 @@ Section Kernels.
   Definition rq (var alpha ls x y : T) : T :=
     f2 O Pow (1 + powi O (x - y) 2 / (2 * alpha * powi O ls 2)) (neg O alpha) * var.
 
-  (** squared distance as the matrix form computes it: x² + y² − 2·(0 + x·y) *)
-  Definition sqdist_expanded (x y : T) : T :=
-    (powi O x 2 + powi O y 2) - 2 * (zero O + x * y).
-  Definition rbf_entry (var ls x y : T) : T :=
-    f1 O Exp (neg O (sqdist_expanded x y) / (2 * powi O ls 2)) * var.
-  Definition rq_entry (var alpha ls x y : T) : T :=
-    f2 O Pow (1 + sqdist_expanded x y / (2 * alpha * powi O ls 2)) (neg O alpha) * var.
-
-  (** matrix form on point sets [xs], [ys]: one row per point of [xs], one column per point of [ys] *)
+  (** matrix form on point sets [xs], [ys]: one row per point of [xs], one column per point of [ys], entry = the scalar form *)
   Definition rbf_matrix (var ls : T) (xs ys : list T) : list (list T) :=
-    map (fun x => map (fun y => rbf_entry var ls x y) ys) xs.
+    map (fun x => map (fun y => rbf var ls x y) ys) xs.
   Definition rq_matrix (var alpha ls : T) (xs ys : list T) : list (list T) :=
-    map (fun x => map (fun y => rq_entry var alpha ls x y) ys) xs.
+    map (fun x => map (fun y => rq var alpha ls x y) ys) xs.
 
   (** constructors: the three [assert!]s *)
   Definition rbf_new (var ls : T) : option (T * T) :=
